@@ -1,15 +1,21 @@
 import Bclv.Proofs.LineCalc
 import Bclv.Proofs.DumpLoad
+import Bclv.Proofs.LexSlice3
+import Bclv.Proofs.LexChunk
 /-!
 # C08 — diagnostics point at the true source location
 
 Proved here: the line calculator computes line and column by their definition for
 every source and every offset in it, the answer does not depend on line-table
 entries at or beyond the offset (so it is independent of how far the lexer has read
-ahead and of chunking), and the line table survives dump and load.  That the
-positions handed to it are the ends of the offending tokens is part of the parser
-and compiler model, checked by correspondence (streams `positions`, `progs`) and by
-the direct oracle that recounts newlines in the source for every printed `L:C`.
+ahead and of chunking), and the line table survives dump and load.
+`token_text`: the position recorded in a token is the offset at which its text ends in the
+source — every token that has a text carries exactly the piece of the input that ends at
+its recorded position (so the `at '…'` of a diagnostic quotes the source text that ends at the
+`L:C` it prints), for the whole-input lexer and for every way of chunking the input.  Which
+token a diagnostic or an instruction is attributed to is part of the parser and compiler
+model, checked by correspondence (streams `positions`, `progs`) and by the direct oracle that
+recounts newlines in the source for every printed `L:C`.
 -/
 namespace Bclv.C08
 open Bclv
@@ -48,5 +54,31 @@ theorem positions_survive (p : Prog) (h : p.WF) :
 
 /-- Non-vacuity: offset 7 of "ab\ncd\nefg" is line 3, column 2. -/
 example : lineColAt (newlinesFrom 0 [97, 98, 10, 99, 100, 10, 101, 102, 103]) 7 = (3, 2) := by decide
+
+/-- **Token positions are where the token's text ends**: every token with a text carries the
+piece of the source that ends at its recorded position. -/
+theorem token_text (input : Bytes) : ∀ t ∈ lexWhole input, t.val = [] ∨ SliceAt input t.pos t.val :=
+  token_text_is_slice input
+
+/-- the same however the input is chunked -/
+theorem token_text_chunked (chunks : List Bytes) :
+    ∀ t ∈ (lexChunks chunks).1, t.val = [] ∨ SliceAt chunks.flatten t.pos t.val := by
+  rw [lex_chunk_indep]; exact token_text_is_slice _
+
+/-- what `SliceAt` says -/
+theorem slice_spelled_out (input : Bytes) (q : Nat) (v : Bytes) (h : SliceAt input q v) :
+    ∃ pre post, input = pre ++ v ++ post ∧ q = pre.length + v.length := by
+  obtain ⟨h1, h2, h3⟩ := h
+  refine ⟨input.take (q - v.length), input.drop q, ?_, ?_⟩
+  · have : input.take q = input.take (q - v.length) ++ v := by
+      have := List.take_append_drop (q - v.length) (input.take q)
+      rw [h3, List.take_take, Nat.min_eq_left (Nat.sub_le _ _)] at this
+      exact this.symm
+    rw [← this, List.take_append_drop]
+  · simp only [List.length_take]; omega
+
+/-- non-vacuity: the tokens of `print x1` -/
+example : (lexWhole [112, 114, 105, 110, 116, 32, 120, 49]).map (fun t => (t.pos, t.val)) =
+    [(5, [112, 114, 105, 110, 116]), (8, [120, 49]), (8, [])] := by decide
 
 end Bclv.C08
